@@ -1,11 +1,14 @@
 package realrepro
 
 import (
+	"fmt"
 	"io"
+	"sync"
 	"testing"
 	"time"
 
 	"github.com/vbauerster/mpb/v8"
+	"github.com/vbauerster/mpb/v8/decor"
 )
 
 // C10: run with `go test -race -run TestC10 .`
@@ -37,4 +40,32 @@ func TestC10CompletedAfterExitVsRender(t *testing.T) {
 		other.Increment()
 		p.Wait()
 	}
+}
+
+// C10, found by the c10r-shared-extender race programs (after a sub-agent's aside): BarExtender created the buffer
+// that collects the extender's lines when the OPTION was built, not when it was applied, so every bar given the same
+// option value shared one bytes.Buffer, filled and drained by each bar's own goroutine. Run with -race.
+func TestC10SharedExtenderOption(t *testing.T) {
+	p := mpb.New(mpb.WithOutput(io.Discard), mpb.WithAutoRefresh(), mpb.WithRefreshRate(time.Millisecond))
+	ext := mpb.BarExtender(mpb.BarFillerFunc(func(w io.Writer, st decor.Statistics) error {
+		_, err := fmt.Fprintf(w, "details of bar %d: %d/%d\n", st.ID, st.Current, st.Total)
+		return err
+	}), false)
+	var bars []*mpb.Bar
+	for i := 0; i < 4; i++ {
+		bars = append(bars, p.AddBar(50, ext))
+	}
+	var wg sync.WaitGroup
+	for _, b := range bars {
+		wg.Add(1)
+		go func(b *mpb.Bar) {
+			defer wg.Done()
+			for i := 0; i < 50; i++ {
+				b.Increment()
+				time.Sleep(200 * time.Microsecond)
+			}
+		}(b)
+	}
+	wg.Wait()
+	p.Wait()
 }
